@@ -72,6 +72,17 @@ func doDump(c *Ctx, what string) {
 		if os.Getenv("LOOP") != "" {
 			opts.LoopBound = 1
 		}
+		if os.Getenv("ONEITER") != "" {
+			opts.Assume = func(t *T) (bool, bool) {
+				if t.Op == "bin" && t.Name == "<" && t.Args[0].String() == "1" && strings.HasPrefix(t.Args[1].String(), "builtin:len(") {
+					return false, true
+				}
+				return false, false
+			}
+		}
+		if os.Getenv("CLOSURES") != "" {
+			opts.Inline = func(f *ssa.Function) bool { return f.Parent() != nil }
+		}
 		outs, abort := Enumerate(fn, opts)
 		for _, o := range outs {
 			b, _ := json.MarshalIndent(o.Summary(), "", " ")
